@@ -3,6 +3,23 @@ import Octo.Drv.Codec
 namespace Octo.Drv.C09
 open Octo Octo.Codec
 
+/-- the comparison operators of SQL as the function table defines them: strict in NULL; `=`/`!=` accept any two
+    values (`Value.Equal`), the ordering operators only values of one type; all decided by `Compare` -/
+def sqlOp (op : String) (a b : Value) : String :=
+  let ordering := !(op == "eq" || op == "ne")
+  match a, b with
+  -- an operand of static type exactly NULL has no overload of the ordering operators (C11's known finding); `=` takes Any
+  | .null, .null => "n"      -- NULL < NULL: equal (non-nullable) types, strict ⇒ NULL
+  | .null, _ => if ordering then "untyped" else "n"
+  | _, .null => if ordering then "untyped" else "n"
+  | _, _ =>
+    let c := cmp a b
+    let bool (x : Bool) : String := if x then "b1" else "b0"
+    if op == "eq" then bool (c == 0) else if op == "ne" then bool (c != 0)
+    else if a.rank != b.rank then "untyped"
+    else if op == "lt" then bool (c < 0) else if op == "le" then bool (c ≤ 0)
+    else if op == "gt" then bool (c > 0) else bool (c ≥ 0)
+
 /-- model side: the same line the Go driver prints -/
 def model (toks : List String) : String :=
   match toks with
@@ -19,6 +36,8 @@ def model (toks : List String) : String :=
   | "laws" :: rest =>
     (do let (a, r) ← parseValue rest; let (b, r) ← parseValue r; let (c, _) ← parseValue r
         pure s!"{cmp a a} {cmp a b} {cmp b a} {cmp b c} {cmp a c} {a.hash.toNat} {b.hash.toNat}").getD "bad-op"
+  | "opsql" :: op :: rest =>
+    (do let (a, r) ← parseValue rest; let (b, _) ← parseValue r; pure (sqlOp op a b)).getD "bad-op"
   | "less" :: k :: rest =>
     -- execution.CompareValueSlices (GroupKey.Less): the btrees' strict order on rows
     (do let n := k.toNat!
@@ -51,6 +70,11 @@ def judge (toks : List String) (out : List String) : String :=
               pure (decide (cmpList a b < 0))) with
     | some want => if (o == "1") == want then "ok" else "bad less-disagrees-with-compare"
     | none => "bad unparsable-op"
+  | "opsql" :: op :: rest, [o] =>
+    -- `=` and the ordering operators agree with Compare on which values are equal and how they order
+    (match (do let (a, r) ← parseValue rest; let (b, _) ← parseValue r; pure (sqlOp op a b)) with
+     | some want => if want == "untyped" || o == want then "ok" else s!"bad sql-operator-{op}-disagrees-with-compare got={o} want={want}"
+     | none => "bad unparsable-op")
   | "cmp" :: _, [o] =>
     -- every caller tests the result against -1 / 0 / 1
     if o == "-1" || o == "0" || o == "1" then "ok" else "bad compare-result-outside-minus-one-zero-one"
